@@ -462,6 +462,57 @@ def check_set_untagged_any(rep):
                                  dict(case, bytes=data.hex()))
 
 
+def check_defaulted_governor(rep):
+    """the governing field declared DEFAULT: when it holds its default the canonical codecs (and BER, for a field never set)
+    leave it out of the encoding; it still governs - the decoder resolves by the default value. Both the default and another
+    governing value, INTEGER and OID, SEQUENCE and SET, single ANY and SEQUENCE OF / SET OF ANY, every codec and mode, default
+    map and caller map"""
+    from pyasn1.type import univ, char, namedtype, opentype, tag as tg
+    for container in (univ.Sequence, univ.Set):
+        for id_t, dflt, other in ((univ.Integer, 1, 2), (univ.Integer, 0, -1), (univ.ObjectIdentifier, (1, 3, 6, 1), (2, 5, 4))):
+            for multi in (None, univ.SequenceOf, univ.SetOf):
+                for explicit_set in (False, True):
+                    any_spec = univ.Any().subtype(explicitTag=tg.Tag(tg.tagClassContext, tg.tagFormatSimple, 3))
+                    field = any_spec if multi is None else multi(componentType=any_spec)
+                    tmap = {id_t(dflt): univ.OctetString(), id_t(other): char.UTF8String()}
+                    schema = container(componentType=namedtype.NamedTypes(
+                        namedtype.DefaultedNamedType('id', id_t(dflt)),
+                        namedtype.NamedType('value', field, openType=opentype.OpenType('id', tmap))))
+                    for gid, inner in ((dflt, univ.OctetString(b'ab')), (other, char.UTF8String('hi'))):
+                        for cdc, dm in MODES:
+                            for how in ('resolve', 'caller-map', 'raw'):
+                                rep.evaluations += 1
+                                rep.count('defaulted-governor')
+                                case = {'kind': 'defaulted-governor', 'container': container.__name__, 'id': str(gid), 'default': str(dflt),
+                                        'multi': multi.__name__ if multi else None, 'codec': cdc, 'defMode': dm, 'how': how,
+                                        'id-set-explicitly': explicit_set}
+                                try:
+                                    v = schema.clone()
+                                    if gid != dflt or explicit_set:
+                                        v['id'] = gid
+                                    if multi is None:
+                                        v['value'] = inner
+                                    else:
+                                        v['value'].extend([inner, inner.clone(inner.asOctets() + b'z')])
+                                    data = enc(cdc, v, dm)
+                                    raws = [enc(cdc, inner, dm), enc(cdc, inner.clone(inner.asOctets() + b'z'), dm)]
+                                    kw = {'resolve': dict(decodeOpenTypes=True), 'raw': {},
+                                          'caller-map': dict(decodeOpenTypes=True, openTypes={id_t(dflt): univ.OctetString(), id_t(other): char.UTF8String()})}[how]
+                                    res, rest = codec.DEC[cdc].decode(data, asn1Spec=schema, **kw)
+                                    got = [res['value']] if multi is None else list(res['value'])
+                                except Exception as e:  # noqa
+                                    rep.fail('defaulted-governor:%s' % codec.classify(e), '%s: %r' % (how, e), case)
+                                    continue
+                                want = [inner] if multi is None else [inner, inner.clone(inner.asOctets() + b'z')]
+                                if how == 'raw':
+                                    ok = (not rest) and [bytes(g) for g in got] == raws[:len(want)]
+                                else:
+                                    ok = (not rest) and len(got) == len(want) and all(type(g) is type(w) and g == w for g, w in zip(got, want))
+                                if not ok:
+                                    rep.fail('defaulted-governor:value', '%s: the field came back as %s' % (
+                                        how, [type(g).__name__ + ':' + str(g.prettyPrint())[:40] for g in got]), dict(case, bytes=data.hex()))
+
+
 def any_match(items, t, w):
     for it in items:
         try:
@@ -514,6 +565,8 @@ def run(rep, tier, seed):
     check_two_open_type_fields(rep)
     rep.case('set with untagged any', nontrivial=True)
     check_set_untagged_any(rep)
+    rep.case('defaulted governing field', nontrivial=True)
+    check_defaulted_governor(rep)
     for i in range(n):
         container = rng.choice(['seq', 'seq', 'set'])
         id_kind = rng.choice(['int', 'oid'])
